@@ -3,6 +3,7 @@
 later *rename* of a private function can be recognised (same impl type, same signature, same callers) instead of
 losing every rule anchored on the old name."""
 import json, os, sys
+os.environ["VERIF_NO_INLINE"] = "1"   # record the tree as the compiler sees it: no inlining of new helpers, no rename resolution
 V = os.path.join(os.path.dirname(os.path.abspath(__file__)), "..")
 sys.path.insert(0, os.path.join(V, "rules"))
 import mir
